@@ -5,4 +5,6 @@ R(id, fam, reg, proto, port) == [id |-> id, fam |-> fam, phantom |-> id, registr
 \* admitted registration shapes: an IPv4 phantom always comes with an IPv4 registrant (admission rule, C07)
 MCRegs == {R("a", "v4", "v4", "tcp", 443), R("b", "v4", "v4mapped", "udp", 443),
            R("c", "v6", "absent", "tcp", 443), R("d", "v6", "v6", "tcp", 8443), R("e", "v6", "v4", "udp", 443)}
+\* two of them, for the life-cycle dynamics (packets keeping sessions alive, crash and restart, shutdown)
+MCRegs2 == {R("a", "v4", "v4", "tcp", 443), R("c", "v6", "absent", "tcp", 443)}
 =============================================================================
